@@ -128,6 +128,15 @@ def h_composite(ctx, cfg):
     ctx.prove(isinstance(lst, list) and bool(ctx.eq(lst[0], C)), "cascade-response-over-containers")
     lst = ParallelFilter(f, g).freq_response((w,))
     ctx.prove(isinstance(lst, tuple) and bool(ctx.eq(lst[0], Pr)), "parallel-response-over-containers")
+    # the lists are mutable: the response is the product / sum of the sections the list holds NOW
+    cas, par = CascadeFilter(f, g), ParallelFilter(f, g)
+    cas.freq_response(w); par.freq_response(w)
+    cas[1] = f; par[0] = g
+    ctx.prove(ctx.eq(cas.freq_response(w) * Df * Df, Nf * Nf), "cascade-response-is-the-product", "after cas[1] = f")
+    ctx.prove(ctx.eq(par.freq_response(w) * Dg, 2 * Ng), "parallel-response-is-the-sum", "after par[0] = g")
+    cas.append(g); del par[0]
+    ctx.prove(ctx.eq(cas.freq_response(w) * Df * Df * Dg, Nf * Nf * Ng), "cascade-response-is-the-product", "after append")
+    ctx.prove(ctx.eq(par.freq_response(w) * Dg, Ng), "parallel-response-is-the-sum", "after del par[0]")
 
 
 def h_dft(ctx, cfg):
